@@ -46,14 +46,23 @@ def file_route(p):
         with open(path, "w", encoding="utf-8", newline="") as f:
             blackbird.dump(p, f)
     except Exception as e:  # noqa
-        return "exc", e, "dump"
+        return "exc", _nopath(e, path), "dump"
     with open(path, encoding="utf-8", newline="") as f:
         text = f.read()
     observe.reset_tables()
     try:
         return "ok", blackbird.load(path), text
     except Exception as e:  # noqa
-        return "exc", e, "load"
+        return "exc", _nopath(e, path), "load"
+
+
+def _nopath(e, path):
+    """the working file's name (it contains the process id) is taken out of the message, so that reports compare"""
+    try:
+        e.args = tuple(a.replace(path, "<FILE>") if isinstance(a, str) else a for a in e.args)
+    except Exception:  # noqa
+        pass
+    return e
 
 
 def dumps(p):
